@@ -72,14 +72,30 @@ def run(eng, ctx):
         return t
 
     dep = lambda t: mentions(strip_len(t), lambda s: LF(s) or (s[0] in ("loop", "loopout") and s[2] in tainted_vars))  # noqa: E731
+    # When the maps have a normal form (sa/seqalg.py), where the option can reach is read off it: nowhere in the satellite map, and in the cell map
+    # neither the enumeration (ranges, bit tests, order) nor the key base nor component 0 of the entries.
+    from .C09 import map_forms
+
+    mf = map_forms(eng)
+    by_form = False
+    if mf is not None:
+        (osat, nsat), (ocell, ncell) = mf["sat"], mf["cell"]
+        parts = [("satellite map", (nsat.gens, nsat.conds, nsat.elt)), ("cell map enumeration", (ncell.gens, ncell.conds))]
+        if ncell.elt[0] == "tuple" and len(ncell.elt[1]) == 2:
+            parts.append(("cell map entries, component 0", ncell.elt[1][0]))
+            by_form = True
+            for what, t in parts:
+                ctx.check(not mentions(t, LF), "C16.D1", mb.qualname, what, expected="independent of the label option", found="mentions the option field" if mentions(t, LF) else "no occurrence of the option field", **eng.loc(mb, mb.node))
+            others = [k for k, v in mf["env"].items() if k.startswith("self.") and k[5:] not in mf["fields"].values() and isinstance(v, tuple) and mentions(v, LF)]
+            ctx.check(not others, "C16.D1", mb.qualname, "other instance fields set by the map builder", expected="independent of the label option", found=", ".join(others) or "-", **eng.loc(mb, mb.node))
     ctx.check(len(appends) + len(label_comps) == 1, "C16.D1", mb.qualname, "option-dependent appends", expected="exactly one (the signal label list: one append, or one comprehension)", found=f"{len(appends)} append(s), {len(label_comps)} comprehension(s)", **eng.loc(mb, mb.node))
     for e in se.effects:
         loc = eng.loc(mb, e.node)
-        gdep = [c for conj in e.dnf for c, _ in conj if dep(c)]
+        gdep = [c for conj in e.dnf for c, _ in conj if dep(c)] if not by_form else []
         if gdep:
             ctx.bad("C16.D1", mb.qualname, norm(e.node)[:80], expected="no branch condition depends on the label option (no implicit flow)", found="condition " + show(gdep[0])[:80], **loc)
             continue
-        if e in appends:
+        if e in appends or by_form:
             continue
         if e.kind == "setitem" and dep(e.term):
             v = e.term
